@@ -163,6 +163,165 @@ Fixpoint drawn (p : path) (t : ltree) {struct t} : list label :=
 
 Definition labels (t : table) : list label := map (fun e => c_label (e_cell e)) (t_cells t).
 
+(** ** The rectangle of every node
+
+    [node_rect t r0 c0 w pi] follows the path [pi] down from [t] drawn at (r0, c0) with
+    padded width [w] and returns the subtree found there with the rectangle
+    (row, column, rows, columns) it is drawn in: the i-th input of a step starts
+    below the inputs before it, at the step's left edge, with the common input width;
+    the body of a titled sub recipe starts one row below it. *)
+Fixpoint node_rect (t : ltree) (r0 c0 w : N) (pi : path) {struct pi} : option (ltree * rect) :=
+  match pi with
+  | [] => Some (t, (r0, c0, height t, w))
+  | i :: pi' =>
+      match t with
+      | LLeaf _ => None
+      | LStep ins =>
+          match nth_error ins i with
+          | Some x =>
+              node_rect x (r0 + list_sum (map height (firstn i ins))) c0
+                        (list_max (map width ins)) pi'
+          | None => None
+          end
+      | LSub b n show =>
+          match i with
+          | O => if Nat.eqb n 1 then node_rect b (if show then r0 + 1 else r0) c0 w pi'
+                 else node_rect b r0 c0 (width b) pi'
+          | S _ => None
+          end
+      end
+  end.
+
+(** The rectangle [rho] moved to the origin is tiled by the rectangles [gs]. *)
+Definition tiles (rho : rect) (gs : list rect) : Prop :=
+  match rho with
+  | (r, c, h, w) =>
+      exists l, Tiling h w l
+                /\ gs = map (fun e => (e_row e + r, e_col e + c, e_rows e, e_cols e)) l
+  end.
+
+(** ** Reading the tree back from the grid
+
+    [decode_table] rebuilds a tree from the cells' geometry, kinds and borders alone
+    (it never looks at the path in a label).  It works on rectangles: the cell covering
+    the top-right slot of a rectangle tells what is drawn there - a leaf, a header (then
+    the body is the rectangle below), or a step cell (then the inputs are the bands to
+    its left, each as high as what is read from it).  An untitled single-output sub
+    recipe shows only through its emphasised outline: on the right edge for an input of
+    a step ([CInput]), on the top edge for a body below a header ([CBelow]); where the
+    outline is drawn anyway ([CFree]: the root, the body of a multi-output root, the
+    body of another untitled sub recipe) it cannot be seen, and [canon] erases exactly
+    those wrappers (and normalises what the grid does not show of a multi-output list:
+    the number of names, the ignored [show] flag). *)
+Inductive ctx := CInput | CBelow | CFree.
+
+Definition border_is_sub (b : border) : bool := match b with BSub => true | _ => false end.
+
+(** The inputs of a step, band after band from row [r'] down to row [rend]; [dec r'] reads
+    the tree whose rectangle starts at row [r'] and says how high it is. *)
+Definition decode_inputs (dec : N -> option (ltree * N)) (rend : N)
+  : nat -> N -> option (list ltree) :=
+  fix loop (k : nat) (r' : N) {struct k} : option (list ltree) :=
+    match k with
+    | O => None
+    | S k' =>
+        if rend <=? r' then Some []
+        else match dec r' with
+             | Some (x, hx) => option_map (cons x) (loop k' (r' + hx))
+             | None => None
+             end
+    end.
+
+Fixpoint decode (fuel : nat) (l : list entry) (cx : ctx) (r c w : N) {struct fuel}
+  : option (ltree * N) :=
+  match fuel with
+  | O => None
+  | S f =>
+      match lookup l r (c + w - 1) with
+      | None => None
+      | Some e =>
+          let x := e_cell e in
+          match fst (c_label x) with
+          | KHeader =>
+              match decode f l CBelow (r + 1) c w with
+              | Some (b, h) => Some (LSub b 1 true, 1 + h)
+              | None => None
+              end
+          | KOutputs => None
+          | k =>
+              let wrapped := match cx with
+                             | CInput => border_is_sub (c_br x)
+                             | CBelow => border_is_sub (c_bt x)
+                             | CFree => false
+                             end in
+              if wrapped then
+                match decode f l CFree r c w with
+                | Some (b, h) => Some (LSub b 1 false, h)
+                | None => None
+                end
+              else
+                match k with
+                | KIngredient => Some (LLeaf false, 1)
+                | KReference => Some (LLeaf true, 1)
+                | KStep =>
+                    let win := e_col e - c in
+                    let h := e_rows e in
+                    match decode_inputs (fun r' => decode f l CInput r' c win) (r + h)
+                                        (S (N.to_nat h)) r with
+                    | Some ins => Some (LStep ins, h)
+                    | None => None
+                    end
+                | _ => None
+                end
+          end
+      end
+  end.
+
+Definition decode_table (fuel : nat) (t : table) : option ltree :=
+  match lookup (t_cells t) 0 (t_cols t - 1) with
+  | None => None
+  | Some e =>
+      match fst (c_label (e_cell e)) with
+      | KOutputs =>
+          match decode fuel (t_cells t) CFree 0 0 (t_cols t - 1) with
+          | Some (b, _) => Some (LSub b 2 true)
+          | None => None
+          end
+      | _ => option_map fst (decode fuel (t_cells t) CFree 0 0 (t_cols t))
+      end
+  end.
+
+Definition is_single_sub (t : ltree) : bool :=
+  match t with LSub _ n _ => Nat.eqb n 1 | _ => false end.
+
+Fixpoint canon (cx : ctx) (t : ltree) {struct t} : ltree :=
+  match t with
+  | LLeaf r => LLeaf r
+  | LStep ins => LStep (map (canon CInput) ins)
+  | LSub b n show =>
+      if Nat.eqb n 1 then
+        if show then LSub (canon CBelow b) 1 true
+        else match cx with
+             | CFree => canon CFree b
+             | _ => if is_single_sub b then canon cx b else LSub (canon CFree b) 1 false
+             end
+      else LSub (canon CFree b) 2 true
+  end.
+
+(** The grid without the paths. *)
+Definition erase_entry (e : entry) : entry :=
+  let x := e_cell e in
+  (e_row e, e_col e,
+   mkCell (fst (c_label x), []) (c_rows x) (c_cols x) (c_bl x) (c_br x) (c_bt x) (c_bb x)).
+Definition erase (t : table) : table := mkTable (t_rows t) (t_cols t) (map erase_entry (t_cells t)).
+
+Fixpoint tree_size (t : ltree) : nat :=
+  match t with
+  | LLeaf _ => 1
+  | LStep ins => S (fold_right (fun x a => (tree_size x + a)%nat) 0%nat ins)
+  | LSub b _ _ => S (tree_size b)
+  end.
+
 (** ** Executable comparison (suite [spec] of the C02 check evaluates it on every generated
     tree: the specification above against the model of the code, cell list in order) *)
 Definition border_eqb (a b : border) : bool :=
@@ -205,6 +364,10 @@ Definition check_spec (t : ltree) (_ : unit) : bool :=
   if wf t then
     match recipe_tree_to_table t with
     | Ok tb => table_eqb tb (spec_table t) && labels_eqb (labels tb) (drawn [] t)
+               && match decode_table (S (tree_size t)) (erase tb) with
+                  | Some t' => ltree_eqb t' (canon CFree t)
+                  | None => false
+                  end
     | Err _ => false
     end
   else true.
